@@ -20,8 +20,6 @@ def run(repo: Repo, tier, rep: Report):
     try:
         k = check_dag_and_paths(repo, rep, tier, which=("paths",))
         rep.floor("interpreted path enumerations", k, 500)
-        # the equal-time clause needs a walk that returns to its source, which the bounded shapes do not contain
-        check_path_discipline(repo, rep, which=("paths",))
     except (AnalysisError, NeedZero):
         try:
             check_path_discipline(repo, rep)
